@@ -161,8 +161,12 @@ func runC20Once(t fataler, c c20Case, iter int) string {
 			}
 		case "closeread":
 			if !closeReadOn {
-				conn.CloseRead(base)
+				conn.CloseRead(ncParent)
 				closeReadOn = true
+			} else {
+				// once more (documented as a no-op that returns the same context), this time under a
+				// context of the application's own type: whatever is derived from it must end with the connection
+				conn.CloseRead(appContext{done: make(chan struct{})})
 			}
 		case "netconn-rw":
 			if nc == nil {
